@@ -40,7 +40,7 @@ class PartialConjugate(EndomorphicOperator):
             raise ValueError("conjugation_keys not in domain!")
         self._domain = domain
         self._conjugation_keys = conjugation_keys
-        self._capabilities = self._all_ops
+        self._capability = self._all_ops
 
     def apply(self, x, mode):
         self._check_input(x, mode)
